@@ -138,7 +138,13 @@ func runProbe(c Case) (string, *rig.Violation) {
 			} else {
 				m.Remove(rg.Pattern, rg.Methods...)
 			}
-		} else if _, panicked := rig.Try(func() { r.Handle(rg.Pattern, env.NewH(), nil, rg.Methods...) }); !panicked {
+		} else if _, panicked := rig.Try(func() {
+			h := env.NewH() // writes a body
+			if i%2 == 1 {
+				h = env.NewH(rig.Action{Op: "status", Code: 202}) // only a status
+			}
+			r.Handle(rg.Pattern, h, nil, rg.Methods...)
+		}); !panicked {
 			m.Handle(rg.Pattern, "h", rg.Methods)
 		}
 		if v := star(fmt.Sprintf("after probe step %d", i)); v != nil {
@@ -146,9 +152,9 @@ func runProbe(c Case) (string, *rig.Violation) {
 		}
 		for _, p := range m.Live() {
 			path, _ := witness(p, "7")
-			for _, meth := range []string{"OPTIONS", "GET", "PATCH"} {
+			for _, meth := range []string{"HEAD", "OPTIONS", "GET", "PATCH", "HEAD"} {
 				o := rig.Serve(r, rig.Req{Method: meth, Path: path})
-				obs = append(obs, fmt.Sprintf("%s %s -> %s %s %d Allow=%q methods=%v", meth, path, o.BaseKind, o.HandlerID, o.EffStatus(), o.Header.Get("Allow"), o.NodeMethods))
+				obs = append(obs, fmt.Sprintf("%s %s -> %s %s %d Allow=%q methods=%v body=%d Content-Length=%q", meth, path, o.BaseKind, o.HandlerID, o.EffStatus(), o.Header.Get("Allow"), o.NodeMethods, len(o.Body), o.Header.Get("Content-Length")))
 				if !o.NodeNil && m.R[o.Pattern] != nil && !rig.EqualSets(o.NodeMethods, m.AllowSet(o.Pattern)) {
 					return "", rig.Violf("fresh-router", "probe router: %s %s reports methods %v, model %v", meth, path, o.NodeMethods, m.AllowSet(o.Pattern))
 				}
@@ -279,7 +285,7 @@ func runInst(in Inst, tag string) *rig.Violation {
 		}
 		for _, p := range m.Live() {
 			path, params := witness(p, strconv.Itoa(i))
-			for _, meth := range []string{"GET", "POST", "OPTIONS", "DELETE"} {
+			for _, meth := range []string{"GET", "POST", "OPTIONS", "DELETE", "HEAD"} {
 				o := rig.Serve(front, rig.Req{Method: meth, Path: prefix + path})
 				if o.Panicked {
 					return rig.Violf("instance-oracle", "%s: %s %s panicked: %v", tag, meth, path, o.PanicVal)
@@ -292,6 +298,9 @@ func runInst(in Inst, tag string) *rig.Violation {
 				}
 				want := append([]string{}, wantOnion...)
 				lookup := meth
+				if meth == "HEAD" {
+					lookup = "GET" // HEAD is answered by the GET registration
+				}
 				via := autoVia[p]
 				if m.Serves(p, meth) != "" {
 					via = viaPrefix[p+" "+lookup]
